@@ -181,6 +181,53 @@ def self_bounding(prog, fid, depth=0):
     return res
 
 
+def _assert_restates_callers_gate(prog, fid, entries):
+    """`debug_assert!(bytes.len() >= HEADER)` / `assert!(..)` inside a non-entry helper `fid`, where EVERY workspace caller
+    reaches the call only past a comparison of the same two things (helper parameters replaced by the caller's arguments)
+    whose other outcome cannot reach the call."""
+    from ..guards import side_tokens
+    h = prog.fns.get(fid)
+    if h is None or h.is_closure() or any(e.id == fid for e in entries):
+        return False
+    pan = [bi for bi, t in h.calls() if PANICS.search(h.callee_of(t) or "") and not h.blocks[bi]["cl"]]
+    if len(pan) != 1 or not (h.callee_of(h.blocks[pan[0]]["t"]) or "").endswith(("panicking::panic", "panicking::assert_failed", "panicking::panic_fmt")):
+        return False
+    # the comparison that decides the assertion: one outcome reaches the panic, the other cannot
+    deciding = None
+    for cmp in comparisons(h):
+        for sw in switch_edges_on_local(h, cmp[4]):
+            for bad, good in ((sw["true"], sw["false"]), (sw["false"], sw["true"])):
+                if pan[0] in h.reachable([bad], avoid_edges=[(sw["sw"], good)]) and pan[0] not in h.reachable([good], avoid_edges=[(sw["sw"], bad)]):
+                    deciding = cmp
+    if deciding is None:
+        return False
+    ta, tb = side_tokens(h, deciding[2]), side_tokens(h, deciding[3])
+    callers = [(g, bi, t) for g in prog.fns.values() if g.crate == h.crate for bi, t in g.calls() if (g.callee_of(t) or "") == fid and not g.blocks[bi]["cl"]]
+    if not callers:
+        return False
+    for g, bi, t in callers:
+        sub = {"p:%d" % (ai + 1): side_tokens(g, a) for ai, a in enumerate(t["args"])}
+
+        def translate(toks):
+            out = set()
+            for x in toks:
+                out |= sub.get(x, {x}) if x.startswith("p:") else {x}
+            return {x for x in out if x.startswith(("c:", "k:", "f:"))}
+        wa, wb = translate(ta), translate(tb)
+        ok_ = False
+        for cmp in comparisons(g):
+            ga, gb = side_tokens(g, cmp[2]), side_tokens(g, cmp[3])
+            if not ((wa <= ga and wb <= gb) or (wa <= gb and wb <= ga)):
+                continue
+            for sw in switch_edges_on_local(g, cmp[4]):
+                for rej, acc in ((sw["true"], sw["false"]), (sw["false"], sw["true"])):
+                    if bi not in g.reachable([rej], avoid_edges=[(sw["sw"], acc)], avoid_blocks=[sw["sw"]]) and g.path([0], [bi], avoid_blocks=[sw["sw"]]) is None:
+                        ok_ = True
+        if not ok_:
+            return False
+    return True
+
+
 def _advanced(fn, operand, depth=0, seen=None):
     """Does the value pass through an addition of a constant (x + 1, checked_add(1), saturating_add(1)) on its way here?"""
     seen = seen if seen is not None else set()
@@ -239,6 +286,8 @@ def run(ctx):
                 sites.add("%s|%s" % (f.id, kind))
     base = baseline("C13.panic_sites", sorted(sites))
     new_sites = sorted(sites - set(base))
+    # an ASSERTION in a helper that merely restates a gate every caller already performed cannot fire: accept it
+    new_sites = [s_ for s_ in new_sites if not _assert_restates_callers_gate(prog, s_.split("|")[0], E)]
     rep.check(not new_sites, "C13.R1", "panic-constructs:no-new", "%d explicit panic constructs reachable, all enumerated and reasoned (rules/baselines.json C13.panic_sites)" % len(sites),
               "new explicit panic construct(s) reachable from a byte-level entry point: %s" % new_sites[:4], site=new_sites[0].split("|")[0] if new_sites else "workspace")
     for s in sorted(sites & set(base))[:400]:
